@@ -1,9 +1,62 @@
 import Driver.Loop
+import Midgard.Model.CacheMachine
+import Midgard.Generated.CacheMech
 
-/-! Driver for C08: placeholder until the model is written. -/
+/-! Driver for C08: one line = one whole history of the cache machine.
+`c08 run <group> <op> <op> …`  with group ∈ trs2llh | llh2trs | enu2trs | trs2enu | toScale
+(flags from the regenerated `CacheMech`) or `f:<5 bits>:<cap>`. -/
 namespace Driver.C08
+open Midgard.Proto Midgard.CacheMachine
+
+def parseShape? : String → Option Shape
+  | "s3" => some .s3 | "s13" => some .s13 | "sn3" => some .sn3 | "s0" => some .s0 | "s1" => some .s1 | _ => none
+
+def showShape : Shape → String
+  | .s3 => "s3" | .s13 => "s13" | .sn3 => "sn3" | .s0 => "s0" | .s1 => "s1"
+
+def parseFlags? (s : String) : Option Flags :=
+  match s with
+  | "trs2llh" => some Midgard.Generated.CacheMech.trs2llh
+  | "llh2trs" => some Midgard.Generated.CacheMech.llh2trs
+  | "enu2trs" => some Midgard.Generated.CacheMech.enu2trs
+  | "trs2enu" => some Midgard.Generated.CacheMech.trs2enu
+  | "toScale" => some Midgard.Generated.CacheMech.toScale
+  | _ =>
+    match s.splitOn ":" with
+    | ["f", bits, cap] =>
+      match bits.toList.map (· == '1'), cap.toNat? with
+      | [a, b, c, d, e], some n => some ⟨a, b, c, d, e, n⟩
+      | _, _ => none
+    | _ => none
+
+def parseOp? (tok : String) : Option Op :=
+  match tok.splitOn ":" with
+  | ["create", v, sh, tag] => do pure (.create (← v.toNat?) (← parseShape? sh) (← tag.toNat?))
+  | ["call", fn, a] => do pure (.call (← fn.toNat?) (← a.toNat?))
+  | ["write", k, j] => do pure (.write (← k.toNat?) (← j.toNat?))
+  | ["mutate", a, v] => do pure (.mutate (← a.toNat?) (← v.toNat?))
+  | _ => none
+
+def showContent : Content → String
+  | .app fn v sh tag => s!"app.{fn}.{v}.{showShape sh}.{tag}"
+  | .junk n => s!"junk.{n}"
+
+def showOut : Out → String
+  | .created => "C"
+  | .result c w h => s!"R:{showContent c}:{showBool w}:{showBool h}"
+  | .wrote => "W"
+  | .refused => "X"
+  | .mutated => "M"
+  | .bad => "B"
 
 def handle : List String → Option String
+  | "c08" :: "run" :: fl :: ops => do
+    let fl ← parseFlags? fl
+    let ops ← ops.mapM parseOp?
+    pure ("|".intercalate ((Midgard.CacheMachine.run fl {} ops).2.map showOut))
+  | ["c08", "flags", fl] => do
+    let fl ← parseFlags? fl
+    pure s!"{showBool fl.keyShape}{showBool fl.keyTag}{showBool fl.copyOut}{showBool fl.frozenOut}{showBool fl.freezeArg}:{fl.cap}"
   | _ => none
 
 end Driver.C08
